@@ -28,6 +28,11 @@ CLAIMED = {
          "For every generated record/layout/container/entry point: decode(II) == decode(MM) on every field, for all embedded classes (BYTE, ASCII 1-3 chars, SHORT, LONG) and out-of-line classes; a one-sided error (one order fails, the other decodes) is a violation.",
          "Trusted: the TIFF writer's two encoders share everything but binary.ByteOrder. Same bounds as C03/C06.",
          "DESIGN.md section 4 C07"),
+
+ "C08": ("TLA+ spec Chunk (reader/environment model: ReadFull design vs. the single-Read deviation, delivery classes full/short-by-one/half/one-byte, data-with-EOF) model-checked by TLC; every run of the design emitted as a delivery pattern and replayed at every Read-call position of the recorded read-call script of each entry point x input on a scripted io.ReadSeeker; value and error compared with the same build on a reader that always fills the buffer",
+         "TLC decides ChunkFree/NoPhantom/Progress/Terminates for every delivery choice up to MaxCalls non-full deliveries (and shows the single-Read deviation violates them); the patterns are placed at every call position (first 24/64 calls) of every unbuffered entry point (exif2.Parse, DecodePng, ScanPngHeader, PreviewCR3, imagetype.Scan/ReadAt, ScanTiffHeader and ScanJPEG on raw readers, ParseXmp) and sampled on buffered ones, plus 10 global schedules, over generated files in every container, their truncations and the repository samples.",
+         "Trusted: the scripted reader (ops/worker.go), TLC. Not exhaustive over schedules: patterns of <= MaxCalls (2 quick / 4 thorough) consecutive short deliveries; inputs are a seeded sample.",
+         "DESIGN.md section 4 C08"),
 }
 NOT_APPLICABLE = {
  "C18": "Bit-for-bit equality of AVX and Go float32 DCT kernels and their error bound against the real DCT-II are IEEE-754 statements over 2^(32*64) inputs; TLA+/TLC has no floating point and the kernels have no state machine to specify (DESIGN.md section 5).",
